@@ -190,11 +190,19 @@ func init() {
 		}
 		b := strBytes(a[0])
 		lo, hi := 0, len(b)
-		for lo < hi && fr.ex.byteIsSpace(fr, b[lo], "strings.TrimSpace") {
-			lo++
+		for lo < hi {
+			w := fr.ex.spaceWidth(b[lo:hi], false)
+			if w == 0 {
+				break
+			}
+			lo += w
 		}
-		for hi > lo && fr.ex.byteIsSpace(fr, b[hi-1], "strings.TrimSpace") {
-			hi--
+		for hi > lo {
+			w := fr.ex.spaceWidth(b[lo:hi], true)
+			if w == 0 {
+				break
+			}
+			hi -= w
 		}
 		return normStr(b[lo:hi])
 	}
@@ -642,4 +650,103 @@ func (ex *Exec) mutexUnlock(fr *frame, m *value) {
 		panic(runtimePanic{kind: "unlock", msg: "sync: unlock of unlocked mutex", where: fr.siteKey() + " [" + fr.where() + "]"})
 	}
 	ls.held = false
+}
+
+// byteIn decides (forking on symbolic bytes) whether b is one of the given
+// values or lies in one of the given inclusive ranges.
+func (ex *Exec) byteIn(b value, vals []byte, ranges [][2]byte) bool {
+	switch x := b.(type) {
+	case uint8:
+		for _, v := range vals {
+			if x == v {
+				return true
+			}
+		}
+		for _, r := range ranges {
+			if x >= r[0] && x <= r[1] {
+				return true
+			}
+		}
+		return false
+	case sym:
+		ts := ex.ts
+		hit := ts.Bool(false)
+		for _, v := range vals {
+			hit = ts.Or(hit, ts.Eq(x.t, ts.Const(8, uint64(v))))
+		}
+		for _, r := range ranges {
+			hit = ts.Or(hit, ts.And(ts.Cmp("bvuge", x.t, ts.Const(8, uint64(r[0]))), ts.Cmp("bvule", x.t, ts.Const(8, uint64(r[1])))))
+		}
+		return ex.branch(hit)
+	}
+	panic(engineError{fmt.Sprintf("byteIn: unexpected byte %T", b)})
+}
+
+// spaceWidth returns the width in bytes of the Unicode white-space rune at
+// the start (fromEnd=false) or at the end (fromEnd=true) of b, as
+// strings.TrimSpace sees it, or 0.  Works on symbolic bytes by forking.
+func (ex *Exec) spaceWidth(b []value, fromEnd bool) int {
+	n := len(b)
+	if n == 0 {
+		return 0
+	}
+	at := func(k int) value { // k-th byte of the candidate rune
+		if fromEnd {
+			return nil
+		}
+		return b[k]
+	}
+	_ = at
+	ascii := []byte{'\t', '\n', '\v', '\f', '\r', ' '}
+	var c value
+	if fromEnd {
+		c = b[n-1]
+	} else {
+		c = b[0]
+	}
+	if ex.byteIn(c, nil, [][2]byte{{0, 0x7F}}) {
+		if ex.byteIn(c, ascii, nil) {
+			return 1
+		}
+		return 0
+	}
+	get := func(k, width int) value { // byte k of a width-byte rune at the start / end
+		if fromEnd {
+			return b[n-width+k]
+		}
+		return b[k]
+	}
+	// two-byte spaces: U+0085, U+00A0
+	if n >= 2 && ex.byteIn(get(0, 2), []byte{0xC2}, nil) && ex.byteIn(get(1, 2), []byte{0x85, 0xA0}, nil) {
+		return 2
+	}
+	if n >= 3 {
+		b0, b1, b2 := get(0, 3), get(1, 3), get(2, 3)
+		// U+1680
+		if ex.byteIn(b0, []byte{0xE1}, nil) {
+			if ex.byteIn(b1, []byte{0x9A}, nil) && ex.byteIn(b2, []byte{0x80}, nil) {
+				return 3
+			}
+			return 0
+		}
+		if ex.byteIn(b0, []byte{0xE2}, nil) {
+			// U+2000..U+200A, U+2028, U+2029, U+202F
+			if ex.byteIn(b1, []byte{0x80}, nil) {
+				if ex.byteIn(b2, []byte{0xA8, 0xA9, 0xAF}, [][2]byte{{0x80, 0x8A}}) {
+					return 3
+				}
+				return 0
+			}
+			// U+205F
+			if ex.byteIn(b1, []byte{0x81}, nil) && ex.byteIn(b2, []byte{0x9F}, nil) {
+				return 3
+			}
+			return 0
+		}
+		// U+3000
+		if ex.byteIn(b0, []byte{0xE3}, nil) && ex.byteIn(b1, []byte{0x80}, nil) && ex.byteIn(b2, []byte{0x80}, nil) {
+			return 3
+		}
+	}
+	return 0
 }
